@@ -514,7 +514,10 @@ class State:
     def bind(self, p, av, env):
         k = p.get("k")
         if k == "Binding":
-            if av.k == "unk":
+            if av.k in ("unk", "none") and self.ty.cls(p["bt"]) == "doc":
+                # a document is a document whatever way it took (received from a channel, handed on through matches)
+                env[p["id"]] = AV("doc")
+            elif av.k == "unk":
                 # classify from the binding's type: a fresh node/ref we know nothing about
                 env[p["id"]] = UNK
             else:
@@ -1227,7 +1230,9 @@ class State:
                     continue  # the callee treats this slice as the absolute token vector (it indexes it with an origin)
             if av.k == "ref":
                 # (a parameter of generic type - `impl IntoIterator<Item = &Reference<T>>` - takes the Reference(s) as they are)
-                if dcl == "ref" or (dcl == "generic" and "Reference<" in bc.tstr(body["params"][i]["bt"])):
+                ptn_ = bc.tstr(body["params"][i]["bt"]).replace("&", "").replace("mut ", "").strip() if dcl == "generic" else ""
+                if dcl == "ref" or (dcl == "generic" and ("Reference<" in ptn_ or any(
+                        ("[%s/#" % ptn_) in pr_ and "Reference<" in pr_ for pr_ in body.get("preds") or []))):
                     frames.append(("ref", av.frame, i))
                     if summ is not None and summ.convention.get(i) == "rebased":
                         rebase_for = av
@@ -1287,7 +1292,14 @@ class State:
             if cls == "node" and callf is not None:
                 return AV("node", callf)
             return self.default_for_type(e)
-        return self.subst(res, callf, ref_map)
+        r_ = self.subst(res, callf, ref_map)
+        if r_.k in ("unk", "none"):
+            # the summary could not tell what comes back (a value received from a channel and handed on through explicit matches):
+            # what the *type* of the call says is still known (an AnalyzedSource is a document, whatever way it took)
+            d_ = self.default_for_type(e)
+            if d_.k == "doc":
+                return d_
+        return r_
 
     def subst(self, av, callf, ref_map):
         if av.k == "tuple":
